@@ -69,10 +69,15 @@ def _renamed_fns(d):
     out = []
     for g in gone:
         parent = g.rsplit("::", 1)[0]
-        cands = [n for n in new if n.rsplit("::", 1)[0] == parent and now[n] == sigs[g]]
-        rivals = [g2 for g2 in gone if g2.rsplit("::", 1)[0] == parent and sigs[g2] == sigs[g]]
-        if len(cands) == 1 and len(rivals) == 1:
-            out.append((cands[0], g))
+        last = g.rsplit("::", 1)[1]
+        cands = [n for n in new if now[n] == sigs[g] and (n.rsplit("::", 1)[0] == parent or n.rsplit("::", 1)[1] == last)]
+        if len(cands) != 1:
+            continue
+        n = cands[0]
+        rivals = [g2 for g2 in gone if sigs[g2] == now[n] and
+                  (g2.rsplit("::", 1)[0] == n.rsplit("::", 1)[0] or g2.rsplit("::", 1)[1] == n.rsplit("::", 1)[1])]
+        if len(rivals) == 1:
+            out.append((n, g))
     return out
 
 
@@ -93,13 +98,11 @@ class Crate:
         # appeared was renamed: it keeps its reviewed name
         self.renamed = _renamed_fns(d)
         if self.renamed and not os.environ.get("VERIF_NO_INLINE"):
-            for new, old in self.renamed:
-                parent, nl = new.rsplit("::", 1)
-                ol = old.rsplit("::", 1)[1]
-                segs = parent.split("::")
-                gen = r"(?:::<(?:[^<>]|<(?:[^<>]|<[^<>]*>)*>)*>)?"
-                pat = "::".join(re.escape(x) for x in segs[:-1]) + ("::" if len(segs) > 1 else "") + re.escape(segs[-1]) + gen + "::"
-                raw = re.sub("(" + pat + ")" + re.escape(nl) + r"(?![A-Za-z0-9_])", lambda m: m.group(1) + ol, raw)
+            gen = r"(?:::<(?:[^<>]|<(?:[^<>]|<(?:[^<>]|<[^<>]*>)*>)*>)*>)?"
+            for new, old in sorted(self.renamed, key=lambda x: -len(x[0])):
+                segs = new.split("::")
+                pat = "(?<![A-Za-z0-9_:])" + (gen + "::").join(re.escape(x) for x in segs) + r"(?![A-Za-z0-9_])"
+                raw = re.sub(pat, lambda m, o=old: o, raw)
             d = json.loads(raw)
             olds = {o for n, o in self.renamed}
             for b in d["bodies"]:
@@ -183,9 +186,11 @@ class Body:
         return "<Body %s>" % self.path
 
     def loc(self, bb=None, line=None):
+        f = self.file
         if line is None and bb is not None:
             line = self.blocks[bb]["term"].get("line")
-        return "%s:%s" % (self.file, line if line is not None else self.line)
+            f = self.blocks[bb].get("file") or f
+        return "%s:%s" % (f, line if line is not None else self.line)
 
     # ---- CFG ------------------------------------------------------------
     def succ(self, bb, unwind=False, cancel=False):
